@@ -1,26 +1,115 @@
-"""Per-property configuration: proof obligations (theorem names + modules), ties, slices, monitors."""
+"""Per-property configuration: proof obligations (theorem names are collected from the Lean sources),
+tie theorems, correspondence slices, model-free monitors."""
+import os, re
+
+HERE = os.path.dirname(os.path.abspath(__file__))
+LEAN = os.path.join(os.path.dirname(HERE), 'lean')
 
 TRUSTED_BASE = [
-    "Lean 4.33.0 kernel (thorough tier: re-checked by leanchecker); axioms allowed: propext, Classical.choice, Quot.sound",
-    "tools/extract.py (translator: tables, constants, call sites of /repo's working tree -> SqGen/Generated.lean)",
-    "tools/corr.py + tools/sqimpl.py + tools/evalimpl.py (correspondence: generators, in-process runner, canonicaliser, diff)",
-    "the Lean compiler for the native model driver (correspondence runs only)",
-    "CPython 3.12 decimal/str/list/dict/copy.deepcopy, PLY's LALR construction, third-party regex: modelled, validated differentially, not verified",
+    "Lean 4.33.0 kernel (thorough tier: compiled .olean files re-checked by leanchecker); axioms allowed in any property "
+    "theorem: propext, Classical.choice, Quot.sound (audited with #print axioms on every run); no sorry/admit/native_decide/bv_decide/own axioms",
+    "tools/extract.py: translator of /repo's working tree (operator table, token/keyword tables, PLY's ordered lexer rules, the 77 "
+    "productions, FUNCTIONS key set, constants, regex call-site kwargs, external-call list) into lean/SqGen/Generated.lean",
+    "tools/corr.py, sqimpl.py, evalimpl.py, slices.py and the generators: the correspondence check (model driver vs implementation "
+    "on the same inputs); its coverage bounds what 'the model behaves like the code' means",
+    "the Lean compiler producing the native model driver sqdrv (used for correspondence runs only, never for a theorem)",
+    "modelled, validated differentially, not verified: CPython 3.12 decimal / str / list / dict / copy.deepcopy / sorted stability, "
+    "PLY's LALR table construction, the third-party regex engine (opaque oracle), random (deterministic stand-in on both sides)",
+    "host functions: the fixed family probe / apply / try_apply plus plain data; 'for all host bindings' is proved for that family",
 ]
 
 
-def T(mod, *names, advisory=False):
-    return [{'module': mod, 'name': n, 'advisory': advisory} for n in names]
+def theorems_of(mod):
+    """fully qualified theorem names declared in a Lean module (namespace taken from the file)"""
+    path = os.path.join(LEAN, mod.replace('.', '/') + '.lean')
+    src = open(path).read()
+    src = re.sub(r'/-.*?-/', '', src, flags=re.S)
+    ns = re.search(r'^namespace\s+(\S+)', src, re.M).group(1)
+    return [ns + '.' + m for m in re.findall(r'^theorem\s+([A-Za-z_][\w\'.]*)', src, re.M)]
 
+
+def P(mod):
+    return [{'module': mod, 'name': n, 'advisory': False} for n in theorems_of(mod)]
+
+
+def T(mod, *names, advisory=False):
+    return [{'module': mod, 'name': 'SqTie.' + n, 'advisory': advisory} for n in names]
+
+
+TIE_PREC = T('SqTie.Prec', 'prec_tie')
+TIE_TOK = T('SqTie.Tokens', 'tokens_tie', 'reserved_tie', 'reserved_unused_tie')
+TIE_LEX = T('SqTie.LexRules', 'lexrules_tie', 'lexignore_tie')
+TIE_GRAM = T('SqTie.Grammar', 'grammar_tie')
+TIE_FN = T('SqTie.Functions', 'functions_tie')
+TIE_CONST = T('SqTie.Consts', 'max_array_size_tie', 'cast_dict_keys_tie', 'default_budget_tie', 'numeric_types_tie')
+TIE_RX = T('SqTie.Regex', 'regex_timeout_tie', 'regex_sites_tie')
+TIE_IMP = T('SqTie.Imports', 'external_calls_tie', 'imports_tie')
+SHAPE_OPS = T('SqTie.Shapes', 'op_classes_shape', 'charge_compare_shape', advisory=True)
+SHAPE_RESETS = T('SqTie.Shapes', 'resets_shape', advisory=True)
 
 PROPS = {
-    'C01': {
-        'obligations': T('SqProps.C01', 'SqProps.C01.charge_first', 'SqProps.C01.opsLimit_is_parser_error',
-                         'SqProps.C01.charge_then_enter', 'SqProps.C01.stepCore_budget_irrelevant',
-                         'SqProps.C01.step_mono', 'SqProps.C01.budget_mono')
-        + T('SqTie.Consts', 'SqTie.default_budget_tie')
-        + T('SqTie.Shapes', 'SqTie.op_classes_shape', 'SqTie.charge_compare_shape', advisory=True),
-        'slices': ['prog_budget'],
-        'monitors': [],
-    },
+    'C01': dict(obligations=lambda: P('SqProps.C01') + T('SqTie.Consts', 'default_budget_tie') + SHAPE_OPS,
+                slices=['prog_budget'], monitors=['c01'],
+                pending=['count_exact (ops delta = number of ev dispatches along any run)', 'aborted_prefix (log of the N-run is a prefix of the M-run)',
+                         'session_partial (per-call statement for closure-free histories)']),
+    'C02': dict(obligations=lambda: P('SqProps.C02') + TIE_FN + TIE_IMP + TIE_GRAM,
+                slices=['builtin_args'], monitors=['c02'],
+                pending=['plain_step_partial (CfgPlain invariant of the machine step)', 'plain_builtin for every FUNCTIONS entry']),
+    'C03': dict(obligations=lambda: P('SqProps.C03') + T('SqTie.Consts', 'max_array_size_tie') + TIE_FN,
+                slices=['ops'], monitors=['c03'],
+                pending=['bound_step_partial (global length bound outside concat / str->list conversions)']),
+    'C04': dict(obligations=lambda: P('SqProps.C04') + T('SqTie.Consts', 'numeric_types_tie') + TIE_FN,
+                slices=['num'], monitors=['c04'],
+                pending=['digits_bound_partial for round/floor/ceil/int/sum/min/max']),
+    'C05': dict(obligations=lambda: P('SqProps.C05') + TIE_RX,
+                slices=['regex'], monitors=['c05'],
+                pending=['regex_cost_bound (abstract cost model under "the engine honours its timeout")']),
+    'C06': dict(obligations=lambda: P('SqProps.C06') + TIE_PREC + TIE_TOK + TIE_LEX + TIE_GRAM,
+                slices=['parse_tok', 'parse_rand', 'lex_chars'], monitors=['c06'],
+                pending=['complete (Reads m a ts t nxt -> parseExpr ... = ok (t, tl))', 'sound', 'reads_derives']),
+    'C07': dict(obligations=lambda: P('SqProps.C07') + TIE_FN + TIE_CONST,
+                slices=['prog', 'ops'], monitors=[],
+                pending=['frame_lemma (compositionality of the machine)']),
+    'C08': dict(obligations=lambda: P('SqProps.C08') + T('SqTie.LexRules', 'lexrules_tie'),
+                slices=['num'], monitors=['c08'],
+                pending=['div_correct (sticky-digit argument of __truediv__)']),
+    'C09': dict(obligations=lambda: P('SqProps.C09') + SHAPE_OPS,
+                slices=['probe'], monitors=['c09'],
+                pending=['big-step corollary: the log of a strict node is the concatenation of its children\'s logs']),
+    'C10': dict(obligations=lambda: P('SqProps.C10'),
+                slices=['scope'], monitors=['c10'],
+                pending=['scope_balanced (scopes.length = 1 + #popScope frames, invariant of step)']),
+    'C11': dict(obligations=lambda: P('SqProps.C11') + SHAPE_RESETS,
+                slices=['session'], monitors=['c11'],
+                pending=['eval_indep_partial lifted to histories with evals (closure-free names)']),
+    'C12': dict(obligations=lambda: P('SqProps.C12'),
+                slices=['alias'], monitors=['c12'],
+                pending=['deepcopy_iso', 'independence_preserved']),
+    'C13': dict(obligations=lambda: P('SqProps.C13') + TIE_FN,
+                slices=['builtin_args'], monitors=['c13'],
+                pending=['Harmless for the remaining non-mutators', 'writes_classified for the machine step']),
+    'C14': dict(obligations=lambda: P('SqProps.C14') + T('SqTie.Consts', 'cast_dict_keys_tie'),
+                slices=['ops'], monitors=['c14'],
+                pending=['ops_refine (induction over whole operation sequences against the abstract spec)']),
+    'C15': dict(obligations=lambda: P('SqProps.C15') + TIE_LEX + TIE_GRAM + TIE_TOK,
+                slices=['layout'], monitors=['c15'],
+                pending=['layout_insensitive via C06.complete', 'lex_extra_blank over whole texts']),
+    'C16': dict(obligations=lambda: P('SqProps.C16') + TIE_TOK,
+                slices=['malformed'], monitors=['c16'],
+                pending=[]),
+    'C17': dict(obligations=lambda: P('SqProps.C17'),
+                slices=['session_cache'], monitors=['c17'],
+                pending=['cache_transparent lifted to whole call sequences incl. eval (simulation)']),
+    'C18': dict(obligations=lambda: P('SqProps.C18') + TIE_LEX + TIE_TOK,
+                slices=['names'], monitors=['c18'],
+                pending=['tree_names_from_tokens (needs parser soundness)']),
+    'C19': dict(obligations=lambda: P('SqProps.C19'),
+                slices=['rand'], monitors=['c19'],
+                pending=['rand0_range ([0,1) for every generator state)', 'shuffle result is a permutation (length proved)']),
+    'C20': dict(obligations=lambda: P('SqProps.C20') + TIE_LEX,
+                slices=['errmsg'], monitors=['c20'],
+                pending=['lineno_is_physical_line (loop invariant over a whole text)']),
 }
+
+for _k, _v in PROPS.items():
+    _v['obligations'] = _v['obligations']()
